@@ -135,17 +135,34 @@ def provenance(e: ast.AST, fn: ast.AST) -> Tuple[str, str]:
     return ('other', norm(e)[:60])
 
 
+def _always_exits(body) -> bool:
+    return bool(body) and isinstance(body[-1], (ast.Return, ast.Raise, ast.Continue, ast.Break))
+
+
 def enclosing_tests(fn: ast.AST, target: ast.AST) -> List[Tuple[str, bool]]:
+    """Branch tests (source, polarity) under which `target` is evaluated: enclosing if statements and conditional
+    expressions, plus the negation of every earlier `if T: ... return/raise` of the same block (implicit else)."""
     out: List[Tuple[str, bool]] = []
+
+    def rec_block(body, acc) -> bool:
+        extra: List[Tuple[str, bool]] = []
+        for st in body:
+            if rec(st, acc + extra):
+                return True
+            if isinstance(st, ast.If) and not st.orelse and _always_exits(st.body):
+                extra.append((norm(st.test), False))
+            elif isinstance(st, ast.If) and st.orelse and _always_exits(st.body) and _always_exits(st.orelse):
+                pass
+        return False
 
     def rec(node, acc) -> bool:
         if node is target:
             out.extend(acc)
             return True
         if isinstance(node, ast.If):
-            if any(rec(s, acc + [(norm(node.test), True)]) for s in node.body):
+            if rec_block(node.body, acc + [(norm(node.test), True)]):
                 return True
-            if any(rec(s, acc + [(norm(node.test), False)]) for s in node.orelse):
+            if rec_block(node.orelse, acc + [(norm(node.test), False)]):
                 return True
             return rec(node.test, acc)
         if isinstance(node, ast.IfExp):
@@ -154,22 +171,33 @@ def enclosing_tests(fn: ast.AST, target: ast.AST) -> List[Tuple[str, bool]]:
             if rec(node.orelse, acc + [(norm(node.test), False)]):
                 return True
             return rec(node.test, acc)
-        for ch in ast.iter_child_nodes(node):
-            if rec(ch, acc):
-                return True
+        for fld, val in ast.iter_fields(node):
+            if isinstance(val, list) and val and isinstance(val[0], ast.stmt):
+                if rec_block(val, acc):
+                    return True
+            elif isinstance(val, list):
+                for ch in val:
+                    if isinstance(ch, ast.AST) and rec(ch, acc):
+                        return True
+            elif isinstance(val, ast.AST):
+                if rec(val, acc):
+                    return True
         return False
     rec(fn, [])
     return out
 
 
-def templates_in(fn: ast.AST) -> List[ast.AST]:
-    """Maximal string-building expressions (f-strings and `+` chains that contain an f-string or a string constant)."""
+def templates_in(fn: ast.AST, const_names: Optional[Set[str]] = None) -> List[ast.AST]:
+    """Maximal string-building expressions (f-strings and `+` chains that contain an f-string, a string constant or a
+    local that is bound to a string constant)."""
     out: List[ast.AST] = []
     inner: Set[int] = set()
+    const_names = const_names or set()
     for n in walk_no_nested(fn):
         if isinstance(n, ast.BinOp) and isinstance(n.op, ast.Add):
             ps = flatten_concat(n)
-            if any(isinstance(p, ast.Constant) and isinstance(p.value, str) for p in ps) or any(isinstance(p, ast.FormattedValue) for p in ps):
+            if any(isinstance(p, ast.Constant) and isinstance(p.value, str) for p in ps) or any(isinstance(p, ast.FormattedValue) for p in ps) \
+                    or any(isinstance(p, ast.Name) and p.id in const_names for p in ps):
                 if id(n) not in inner:
                     out.append(n)
                 # only the direct pieces of this chain belong to it; templates nested inside calls/generators are their own
@@ -188,11 +216,53 @@ def templates_in(fn: ast.AST) -> List[ast.AST]:
     return out
 
 
+def _const_bindings(fn: ast.AST) -> Dict[str, List[Tuple[ast.AST, Optional[Tuple[str, bool]]]]]:
+    """Locals bound exactly once to a string constant or to `A if T else B` with constant arms:
+    name -> [(constant node, extra guard or None)]."""
+    counts: Dict[str, int] = {}
+    vals: Dict[str, ast.AST] = {}
+    for n in walk_no_nested(fn):
+        if isinstance(n, ast.Name) and isinstance(n.ctx, ast.Store):
+            counts[n.id] = counts.get(n.id, 0) + 1
+        if isinstance(n, ast.Assign) and len(n.targets) == 1 and isinstance(n.targets[0], ast.Name):
+            vals[n.targets[0].id] = n.value
+    out: Dict[str, List[Tuple[ast.AST, Optional[Tuple[str, bool]]]]] = {}
+    for k, v in vals.items():
+        if counts.get(k) != 1:
+            continue
+        if isinstance(v, ast.Constant) and isinstance(v.value, str):
+            out[k] = [(v, None)]
+        elif isinstance(v, ast.IfExp) and isinstance(v.body, ast.Constant) and isinstance(v.orelse, ast.Constant) \
+                and isinstance(v.body.value, str) and isinstance(v.orelse.value, str):
+            out[k] = [(v.body, (norm(v.test), True)), (v.orelse, (norm(v.test), False))]
+    return out
+
+
+def _variants(pieces: List[ast.AST], binds) -> List[Tuple[List[ast.AST], List[Tuple[str, bool]]]]:
+    """Template piece lists with constant-bound names replaced by their constants (one variant per combination of
+    conditional constants that share a test)."""
+    res: List[Tuple[List[ast.AST], List[Tuple[str, bool]]]] = [([], [])]
+    for p in pieces:
+        core = p.value if isinstance(p, ast.FormattedValue) else p
+        if isinstance(core, ast.Name) and core.id in binds:
+            nxt = []
+            for ps, gs in res:
+                for cnode, g in binds[core.id]:
+                    if g is not None and any(x[0] == g[0] and x[1] != g[1] for x in gs):
+                        continue            # contradictory arm of the same test
+                    nxt.append((ps + [cnode], gs + ([g] if g is not None and g not in gs else [])))
+            res = nxt
+        else:
+            res = [(ps + [p], gs) for ps, gs in res]
+    return res[:8]
+
+
 def sinks_of(fi: FuncInfo) -> List[Sink]:
     out: List[Sink] = []
     fn = fi.node
-    for t in templates_in(fn):
-        pieces = flatten_concat(t)
+    binds = _const_bindings(fn)
+    for t in templates_in(fn, set(binds)):
+      for pieces, extra_guards in _variants(flatten_concat(t), binds):
         tsrc = norm(t)
         state = ''
         for i, p in enumerate(pieces):
@@ -206,10 +276,13 @@ def sinks_of(fi: FuncInfo) -> List[Sink]:
             for argi, pe in multi_args(p):
                 core, wr = strip_wrappers(pe)
                 core, wr = resolve_local_chain(fn, core, wr, getattr(p, 'lineno', 0))
-                out.append(Sink(fi, p, core, left, right, state, wr, provenance(core, fn), enclosing_tests(fn, p), tsrc, argi))
+                q = state
+                if not state and i > 0 and not isinstance(pieces[i - 1], ast.Constant):
+                    q = '?'            # preceded by a non-literal piece: the quote context cannot be read off the template
+                out.append(Sink(fi, p, core, left, right, q, wr, provenance(core, fn), enclosing_tests(fn, p) + list(extra_guards), tsrc, argi))
     # bare sinks: a data value handed on without any template around it
     in_template: Set[int] = set()
-    for t in templates_in(fn):
+    for t in templates_in(fn, set(binds)):
         for x in ast.walk(t):
             in_template.add(id(x))
     for n in walk_no_nested(fn):
@@ -295,9 +368,21 @@ def sanitiser_of(idx: PyIndex, fi: FuncInfo) -> Optional[Sanitiser]:
                 pats[n.targets[0].id] = a0.body.value
                 alt_pats[n.targets[0].id] = [a0.body.value, a0.orelse.value]
                 notes_mode = f'the pattern depends on `{norm(a0.test)}`'
+    # module-level compiled patterns used by name
+    for n in walk_no_nested(fi.node):
+        if isinstance(n, ast.Call) and isinstance(n.func, ast.Attribute) and n.func.attr == 'sub' and isinstance(n.func.value, ast.Name) \
+                and n.func.value.id not in pats:
+            sym = idx.resolve(fi.module, n.func.value.id)
+            if sym is not None and sym.kind == 'assign' and isinstance(sym.node, ast.Call) and norm(sym.node.func) in ('re.compile', 'compile') \
+                    and sym.node.args and isinstance(sym.node.args[0], ast.Constant):
+                pats[n.func.value.id] = sym.node.args[0].value
     for n in walk_no_nested(fi.node):
         if isinstance(n, ast.Call) and isinstance(n.func, ast.Attribute) and n.func.attr == 'sub':
             pat = None
+            if isinstance(n.func.value, ast.Name) and n.func.value.id in pats and len(n.args) >= 2 and isinstance(n.args[0], ast.Lambda):
+                r = lambda_repl(n.args[0])
+                if r is not None:
+                    pat, repl = pats[n.func.value.id], r
             if isinstance(n.func.value, ast.Name) and n.func.value.id in pats and len(n.args) >= 2 and isinstance(n.args[0], ast.Constant):
                 pat, repl = pats[n.func.value.id], n.args[0].value
             elif norm(n.func.value) == 're' and len(n.args) >= 3 and isinstance(n.args[0], ast.Constant) and isinstance(n.args[1], ast.Constant):
@@ -338,6 +423,26 @@ def sanitiser_of(idx: PyIndex, fi: FuncInfo) -> Optional[Sanitiser]:
     if not found:
         return None
     return Sanitiser(esc, removes, notes)
+
+
+def lambda_repl(lam: ast.Lambda) -> Optional[str]:
+    """Replacement template equivalent to `lambda m: 'const' + m.group(k) + ...` (None if the lambda is anything else)."""
+    if len(lam.args.args) != 1:
+        return None
+    m = lam.args.args[0].arg
+    out = []
+    for p in flatten_concat(lam.body):
+        core = p.value if isinstance(p, ast.FormattedValue) else p
+        if isinstance(core, ast.Constant) and isinstance(core.value, str):
+            out.append(core.value.replace('\\', '\\\\'))
+        elif isinstance(core, ast.Call) and isinstance(core.func, ast.Attribute) and core.func.attr == 'group' and norm(core.func.value) == m \
+                and (not core.args or (isinstance(core.args[0], ast.Constant) and isinstance(core.args[0].value, int))):
+            out.append('\\' + str(core.args[0].value if core.args else 0))
+        elif isinstance(core, ast.Subscript) and norm(core.value) == m and isinstance(core.slice, ast.Constant) and isinstance(core.slice.value, int):
+            out.append('\\' + str(core.slice.value))
+        else:
+            return None
+    return ''.join(out)
 
 
 def regex_literal_alternatives(pat: str) -> List[Optional[str]]:
@@ -445,7 +550,11 @@ class TemplateIndex:
         return [(f, w) for f, w, _ in self.expand_g(s, depth)]
 
     def expand_g(self, s: Sink, depth: int = 0) -> List[Tuple[Sink, List[str], List[Tuple[str, bool]]]]:
-        res: List[Tuple[Sink, List[str], List[Tuple[str, bool]]]] = []
+        return [(f, w, g) for f, w, g, _ in self.expand_c(s, depth)]
+
+    def expand_c(self, s: Sink, depth: int = 0):
+        """[(final sink, wrappers, guards, chain of sinks from s to the final one)]."""
+        res = []
         for k in range(len(s.wrappers) - 1, -1, -1):
             w = s.wrappers[k]
             if w.startswith('.'):
@@ -460,7 +569,22 @@ class TemplateIndex:
             inner = self.param_contexts(callee, params[pi], depth + 1)
             if inner:
                 for si in inner:
-                    for fin, ws, gs in self.expand_g(si, depth + 1):
-                        res.append((fin, s.wrappers[:k] + ws, list(s.guards) + gs))
+                    for fin, ws, gs, ch in self.expand_c(si, depth + 1):
+                        res.append((fin, s.wrappers[:k] + ws, list(s.guards) + gs, [s] + ch))
                 return res
-        return [(s, list(s.wrappers), list(s.guards))]
+        return [(s, list(s.wrappers), list(s.guards), [s])]
+
+
+def origin_finals(ti: 'TemplateIndex', fi: FuncInfo):
+    """All final contexts of the sinks of fi (helpers it passes its values to are descended into):
+    [(origin sink, final sink, wrappers, guards, value path in terms of fi's own names, chain of sinks)]."""
+    out = []
+    for s in ti.sinks.get(fi.id, []):
+        for f, w, g, ch in ti.expand_c(s):
+            # value path: follow the chain, re-rooting attribute paths of helper parameters at the caller's value
+            path = s.source[1].split(' in ')[0] if s.source[0] == 'loop' else s.source[1]
+            for nxt in ch[1:]:
+                if nxt.source[0] == 'attr' and '.' in nxt.source[1]:
+                    path = f'{path}.{nxt.source[1].split(".", 1)[1]}'
+            out.append((s, f, w, g, path, ch))
+    return out
